@@ -357,6 +357,7 @@ func cmdCheck(args []string) int {
 			ev.Inconclusive = append(ev.Inconclusive, msg)
 		}
 	}
+	ev.Bounds = inputDomains(names)
 	known := loadKnown()
 	expReach := expectedReach(prop)
 	reachedAll := map[string]bool{}
@@ -463,4 +464,50 @@ func runSelftest(prog *Program) (int, []string) {
 		}
 	}
 	return total, bad
+}
+
+
+var domainRe = regexp.MustCompile(`verif(Int|Choice|Bytes|U8|U16|U32|U64|I64|Bool|Flag|Sched|Repeat|RandFaultAt)\([^)]*\)`)
+
+// inputDomains lists, per harness run, the verif* input declarations found in its source
+// (the stated bounds of the check).
+func inputDomains(harnesses []string) []string {
+	want := map[string]bool{}
+	for _, h := range harnesses {
+		want[h] = true
+	}
+	var out []string
+	filepath.Walk(filepath.Join(verifDir, "harness"), func(p string, info os.FileInfo, err error) error {
+		if err != nil || info.IsDir() || !strings.HasSuffix(p, ".go") {
+			return nil
+		}
+		data, _ := os.ReadFile(p)
+		src := string(data)
+		idx := regexp.MustCompile(`(?m)^func ([A-Za-z0-9_]+)\(`).FindAllStringSubmatchIndex(src, -1)
+		for i, m := range idx {
+			name := src[m[2]:m[3]]
+			end := len(src)
+			if i+1 < len(idx) {
+				end = idx[i+1][0]
+			}
+			if !want[name] && !strings.HasPrefix(name, "verif") {
+				continue
+			}
+			body := src[m[0]:end]
+			seen := map[string]bool{}
+			var ds []string
+			for _, d := range domainRe.FindAllString(body, -1) {
+				if !seen[d] {
+					seen[d] = true
+					ds = append(ds, d)
+				}
+			}
+			if len(ds) > 0 && want[name] {
+				out = append(out, name+": "+strings.Join(ds, "; "))
+			}
+		}
+		return nil
+	})
+	sort.Strings(out)
+	return out
 }
